@@ -236,6 +236,14 @@ pub fn check_looping(code: &[u8]) -> Result<bool, Verdict> {
             what: format!("offset {bad} is executed but no EVM control flow reaches it"),
         });
     }
+    if let VmRun::Ran(o) = run_vm(code, sle::vm::Config::default().with_permissive_errors(true), lazy()) {
+        if let Some(bad) = o.executed.iter().copied().filter(|i| kinds[*i as usize]).find(|i| !over.contains(i)) {
+            return Err(Verdict {
+                key: format!("permissive:executed-unreachable:{}", describe(code, bad)),
+                what: format!("in permissive mode offset {bad} is executed but no EVM control flow reaches it"),
+            });
+        }
+    }
     let lim = Limits {
         max_paths: 512,
         max_steps_per_path: 1024,
@@ -308,6 +316,22 @@ pub fn check_code(code: &[u8]) -> Result<(bool, bool), Verdict> {
             key: format!("reachable-not-executed:{}", describe(code, *missed)),
             what: format!("offset {missed} is reachable in the EVM control-flow graph but was never executed (executed: {e:?})"),
         });
+    }
+    // the error mode decides what is REPORTED, never where control goes: same two inclusions in permissive mode
+    if let VmRun::Ran(o) = run_vm(code, sle::vm::Config::default().with_permissive_errors(true), lazy()) {
+        let ep: BTreeSet<u32> = o.executed.iter().copied().filter(|i| kinds[*i as usize]).collect();
+        if let Some(bad) = ep.iter().find(|i| !reach.contains(i)) {
+            return Err(Verdict {
+                key: format!("permissive:executed-unreachable:{}", describe(code, *bad)),
+                what: format!("in permissive mode offset {bad} is executed but is not reachable in the EVM control-flow graph (reachable: {reach:?})"),
+            });
+        }
+        if let Some(missed) = reach.iter().find(|i| code[**i as usize] != 0x5b && !ep.contains(i)) {
+            return Err(Verdict {
+                key: format!("permissive:reachable-not-executed:{}", describe(code, *missed)),
+                what: format!("in permissive mode offset {missed} is reachable in the EVM control-flow graph but was never executed (executed: {ep:?})"),
+            });
+        }
     }
     // tight limits must not cut anything when they do not bind: no JUMPDEST is forked to more than once
     let mut taken_edges: std::collections::BTreeMap<u32, BTreeSet<u32>> = std::collections::BTreeMap::new();
@@ -446,7 +470,7 @@ impl Check for C08 {
                  computed constant). For each program the real VM's executed-offset set (restricted to instruction boundaries) is \
                  compared with a reference EVM control-flow exploration: always a subset of the over-approximated CFG; for loop-free \
                  programs equal to the exact reachable set on non-JUMPDEST offsets (also with iteration and fork limit 1 when no \
-                 JUMPDEST is the target of more than one conditional jump). Plus 2 048 loops whose conditional jump takes a target from \
+                 JUMPDEST is the target of more than one conditional jump), in strict and in permissive error mode. Plus 2 048 loops whose conditional jump takes a target from \
                  the stack that advances by 1 or 2 on every iteration over tails of JUMPDEST / STOP / push data / INVALID bytes, checked \
                  against bounded-unrolling reference explorations. states = distinct programs with a jump whose \
                  exact reference CFG was validated against the implementation; transitions = programs executed",
